@@ -5,6 +5,8 @@ package log
 import (
 	"fmt"
 	"os"
+	"runtime"
+	"strings"
 	"sync"
 )
 
@@ -41,7 +43,7 @@ func VerifGuardClosedReads() {
 		name, bad := verifClosed[s]
 		verifClosedMu.Unlock()
 		if bad {
-			fmt.Fprintf(os.Stderr, "VERIF-CLOSED-READ: Log.Get/GetN through segment %s (prevIndex %d) after it was unmapped\n", name, s.prevIndex)
+			fmt.Fprintf(os.Stderr, "VERIF-CLOSED-READ: Log.Get/GetN through segment %s (prevIndex %d) after it was unmapped\n%s\n", name, s.prevIndex, verifShortStack())
 			if VerifOnClosedRead != nil {
 				VerifOnClosedRead(name)
 			}
@@ -52,3 +54,23 @@ func VerifGuardClosedReads() {
 
 // VerifOnClosedRead, when set, is called before the process exits.
 var VerifOnClosedRead func(segment string)
+
+// verifShortStack returns the function names of the reading goroutine's stack.
+func verifShortStack() string {
+	buf := make([]byte, 1<<14)
+	buf = buf[:runtime.Stack(buf, false)]
+	var out []string
+	for _, l := range strings.Split(string(buf), "\n") {
+		if l == "" || l[0] == '\t' || strings.HasPrefix(l, "goroutine ") || strings.HasPrefix(l, "runtime") {
+			continue
+		}
+		if i := strings.LastIndex(l, "("); i > 0 {
+			l = l[:i]
+		}
+		out = append(out, strings.TrimPrefix(l, "github.com/santhosh-tekuri/raft"))
+		if len(out) >= 12 {
+			break
+		}
+	}
+	return "  read by: " + strings.Join(out, " < ")
+}
